@@ -21,6 +21,10 @@ CT = "/tmp/wt-seeded-cargo"       # CARGO_TARGET_DIR for cargo test in the workt
 def sh(cmd, cwd=None, env=None, timeout=3600):
     e = dict(os.environ)
     e["CARGO_NET_OFFLINE"] = "true"
+    # Python coerces the C locale to C.UTF-8 for its children (PEP 538); the demonstrations were written
+    # and run under the plain C locale (byte-oriented grep patterns)
+    e.pop("LC_CTYPE", None)
+    e["LC_ALL"] = "C"
     if env:
         e.update(env)
     p = subprocess.run(cmd, cwd=cwd, env=e, shell=isinstance(cmd, str), capture_output=True, text=True, timeout=timeout)
